@@ -72,7 +72,7 @@ def web_app(world):
         return None
 
 
-def scenario(policy, shape, kind, inject_at=None, line_level=True, requester=True, prio=True, preempt_at=None):
+def scenario(policy, shape, kind, inject_at=None, line_level=True, requester=True, prio=True, preempt_at=None, ticks_first=False):
     """One execution.  Returns sched with .events (for TraceStop) and .meta."""
     sched = detsched.Sched(policy, trace_files=rtworld.TRACE_FILES if line_level else (), max_steps=12000)
     world = rtworld.RtWorld(sched, POP, tick=TICK)
@@ -212,6 +212,12 @@ def scenario(policy, shape, kind, inject_at=None, line_level=True, requester=Tru
             events.append({'e': 'stop_ret', 'k': 'job' if kind == 'bgjob' else kind, 'cur': current_run()})
             state['stop_step'], state['stop_time'] = sched.steps, sched.vtime
             sched.priority = None
+            if ticks_first:
+                # the clock's tick thread gets its turn before the job thread does: a tick right after the request
+                others = {state.get('job_tid'), sched.me().tid, state.get('client_tid')}
+                ticks = [t.tid for t in sched.threads if t.tid not in others and t.status != 'done']
+                if ticks:
+                    sched.priority = ticks[-1]
             # afterwards: the same script again when it ends by itself, else another one
             if self_ending:
                 full[3] = full_a
@@ -221,7 +227,7 @@ def scenario(policy, shape, kind, inject_at=None, line_level=True, requester=Tru
                 queue(job_c, 3, 'c')
             nruns[0] = max(nruns[0], 3)
 
-        sched.spawn(client, name='client')
+        state['client_tid'] = sched.spawn(client, name='client').tid
         if requester:
             req = sched.spawn(stopper, name='stopper')
 
@@ -265,7 +271,7 @@ def task(args):
         # "as the script finishes": every single scheduling point from just before the first run's execute() returns until
         # the controller has taken note of it
         end1 = ref.meta.get('end_steps', {}).get(1) if ref is not None else None
-        tail = [p for p in range(end1 - 6, end1 + 70)] if end1 is not None else []
+        tail = [p for p in range(end1 - 4, end1 + 50)] if end1 is not None else []
         for idx, at in enumerate(points):
             sched = scenario(detsched.Replay(prefix), shape, kind, inject_at=at)
             out.append((shape, kind, 'inject@%d' % at, [c[1] for c in sched.choices][:400], sched.events, sched.meta))
@@ -277,13 +283,20 @@ def task(args):
             every = 12 if stride >= 7 else 3
             if idx % every == every // 4:
                 # the same point with exactly one preemption of the request by the job thread, at every k-th step of the call
-                for k in range(1, 44, 2):
+                for k in range(1, 44, 3):
                     sched = scenario(detsched.Replay(prefix), shape, kind, inject_at=at, preempt_at=k)
                     out.append((shape, kind, 'preempt@%d+%d' % (at, k), [c[1] for c in sched.choices][:400], sched.events, sched.meta))
-            if idx % 2 == 0:
-                # the same point, but the request races with the other threads instead of running undisturbed
-                sched = scenario(ReplayThenWalk(prefix, at, seed * 1000 + at), shape, kind, inject_at=at, prio=False)
-                out.append((shape, kind, 'race@%d' % at, [c[1] for c in sched.choices][:400], sched.events, sched.meta))
+            waits = shape in ('timed', 'long', 'tod', 'tod_or')
+            if waits:
+                # the request undisturbed, then the clock's tick before the job thread goes on
+                sched = scenario(detsched.Replay(prefix), shape, kind, inject_at=at, ticks_first=True)
+                out.append((shape, kind, 'tick-after@%d' % at, [c[1] for c in sched.choices][:400], sched.events, sched.meta))
+            for variant in range(1):
+                if idx % 2 == 0:
+                    # the same point, but the request races with the other threads (job, clock) instead of running undisturbed;
+                    # scripts that wait get more of these: a wake-up has three parties
+                    sched = scenario(ReplayThenWalk(prefix, at, seed * 1000 + at * 7 + variant), shape, kind, inject_at=at, prio=False)
+                    out.append((shape, kind, 'race@%d.%d' % (at, variant), [c[1] for c in sched.choices][:400], sched.events, sched.meta))
     else:
         rng = random.Random(seed)
         for _ in range(budget):
